@@ -8,7 +8,7 @@ from __future__ import annotations
 from core import Case
 
 PID = "C09"
-LEAN_MODULES = ["KrroodVerif.Props.C09", "KrroodVerif.Props.C09Lazy", "KrroodVerif.Props.C09Shape"]
+LEAN_MODULES = ["KrroodVerif.Props.C09", "KrroodVerif.Props.C09Lazy", "KrroodVerif.Props.C09Shape", "KrroodVerif.Props.C09Sched"]
 THEOREMS = [
     "KrroodVerif.Quant.C09_run_eq_spec",
     "KrroodVerif.Quant.C09_mk_wf",
@@ -28,12 +28,18 @@ THEOREMS = [
     "KrroodVerif.Quant.C09_shape_ok_consumed",
     "KrroodVerif.Quant.C09_shape_ok_the",
     "KrroodVerif.Quant.C09_shape_the_is_model",
+    "KrroodVerif.Quant.C09_shape_ok_sched",
 ]
-MODEL_FUNCTION = "Quant.run / Quant.assertSat / Quant.mkSingle / Quant.mkRange / Quant.theRun (Model/Quantifier.lean)"
+MODEL_FUNCTION = ("Quant.run / Quant.assertSat / Quant.mkSingle / Quant.mkRange / Quant.theRun (Model/Quantifier.lean); "
+                  "Quant.interpLoop / interpThe / interpSched over the regenerated LoopShape (Model/QuantShape.lean)")
 TRUSTED = [
     "Lean 4.33 kernel; axioms of each theorem listed under coverage.theorems",
     "hand-written model Model/Quantifier.lean of result_quantification_constraint.py and ResultQuantifier._evaluate__/The",
     "this correspondence harness (exhaustive grid over the real API) and the S-expression driver",
+    "the two translators harness/translate/c09_translate.py (constraint classes) and c09_loop_translate.py (counting loop "
+    "-> LoopShape): strict (unrecognised statements are rejected), their reading of the recognised statements and the "
+    "interpreter Model/QuantShape.lean of a LoopShape are trusted (interpSched reproduces, by `decide`, what the real code "
+    "showed under the seeded changes C03-m2 and C09-m1: Props/C09Sched.lean)",
 ]
 ASSUMPTIONS = [
     "the child query yields exactly its n solutions (that is C01/C02's subject, not C09's); the model is parametric in the "
